@@ -1751,3 +1751,7 @@ mod tests {
         assert_eq!(values, vec![true, false, true, true, false, false, false]);
     }
 }
+
+#[cfg(kani)]
+#[path = "/verif/kani/arrow-array/array/boolean_array.rs"]
+mod verif_kani;
